@@ -64,10 +64,8 @@ class Runner:
         if no_exclude: a.append("--no-exclude")
         if text: a.append("--text")
         if budget: a += ["--budget", str(budget)]
-        try:
-            r = sh(a, env=self.env, timeout=(budget or 60) + 30)
-        except subprocess.TimeoutExpired:
-            return "hang", "", "timeout"
+        r = self.run_watched(a, (budget or 60) + 30)
+        if r is None: return "hang", "", "timeout"
         out = r.stdout
         if r.returncode == 0: return "pass", "", out
         if r.returncode == 97: return "hang", "watchdog", out
@@ -76,6 +74,29 @@ class Runner:
             return "fail", line[len("FAIL oracle="):].split(" ")[0], out
         if r.returncode == 2: return "error", "", out
         return "crash", self.crash_sig(out), out
+
+    TSAN_MARK = "WARNING: ThreadSanitizer"
+    def run_watched(self, a, timeout):
+        """Runs a command capturing its output. ThreadSanitizer (clang 14) can dead-lock inside its own runtime after printing a race report when the
+        racing threads keep allocating, instead of exiting (halt_on_error): the report itself is the verdict, so the process is stopped shortly after it appears."""
+        class R: pass
+        logp = os.path.join(self.work, f"watched-{time.time_ns()}.log")
+        with open(logp, "w") as lf:
+            p = subprocess.Popen(a, env=self.env, stdout=lf, stderr=subprocess.STDOUT, preexec_fn=os.setsid)
+            t_end = time.time() + timeout; seen_at = None; rc = None
+            while True:
+                try: rc = p.wait(timeout=0.25); break
+                except subprocess.TimeoutExpired: pass
+                if self.cfg["flavour"] == "tsan":
+                    txt = open(logp, errors="replace").read()
+                    if self.TSAN_MARK in txt:
+                        if seen_at is None: seen_at = time.time()
+                        elif time.time() - seen_at > 3.0: os.killpg(p.pid, signal.SIGKILL); p.wait(); rc = 98; break
+                if time.time() > t_end: os.killpg(p.pid, signal.SIGKILL); p.wait(); return None
+        r = R(); r.stdout = open(logp, errors="replace").read(); r.returncode = rc
+        if self.cfg["flavour"] == "tsan" and self.TSAN_MARK in r.stdout and rc in (0, 1, 97): r.returncode = 98
+        os.unlink(logp)
+        return r
 
     @staticmethod
     def crash_sig(out):
@@ -181,11 +202,17 @@ class Runner:
         qi = 0
         while qi < len(procs):
             i, wd, p, attempt, count = procs[qi]; qi += 1
-            try:
-                rc = p.wait(timeout=max(1, deadline - time.time()))
-            except subprocess.TimeoutExpired:
-                os.killpg(p.pid, signal.SIGKILL); p.wait(); rc = None
-                self.notes.append(f"shard {i} stopped at the wall budget ({budget}s): inconclusive for the remaining cases")
+            rc = "pending"
+            while rc == "pending":
+                try: rc = p.wait(timeout=1.0 if self.cfg["flavour"] == "tsan" else max(1, deadline - time.time()))
+                except subprocess.TimeoutExpired:
+                    if self.cfg["flavour"] == "tsan" and self.TSAN_MARK in open(f"{wd}/log", errors="replace").read():
+                        time.sleep(3.0)
+                        if p.poll() is None: os.killpg(p.pid, signal.SIGKILL)
+                        p.wait(); rc = 98; break
+                    if time.time() > deadline:
+                        os.killpg(p.pid, signal.SIGKILL); p.wait(); rc = None
+                        self.notes.append(f"shard {i} stopped at the wall budget ({budget}s): inconclusive for the remaining cases")
             sp = f"{wd}/stats.json"
             if os.path.exists(sp):
                 try: stats.append(json.load(open(sp)))
